@@ -84,7 +84,8 @@ def blocking_case(chk, s, rng, c, prev):
     judge(chk, c, ok, f2.get("sighash") == doc.hex(), "blocking", r, s)
     if ok and "sig" in f2:
         body = ksi.parse_tlvs(bytes.fromhex(f2["sig"]))[0][3]
-        ch = ksi.find(body, 0x0801)[0]
+        # the lowest aggregation chain = the one with the longest chain index (the order of the chains in the serialization carries no meaning)
+        ch = max(ksi.find(body, 0x0801), key=lambda c: sum(1 for t, _, _, _, _ in ksi.parse_tlvs(c) if t == 3))
         first = ksi.parse_tlvs([p for t, _, _, p, _ in ksi.parse_tlvs(ch) if t in (7, 8)][0])
         corr = [int.from_bytes(p, "big") for t, _, _, p, _ in first if t == 1]
         if ksi.find(ch, 5)[0] != doc or (corr[0] if corr else 0) < level:
